@@ -183,6 +183,15 @@ void run_sweep(Stats& st) {
 		if (sw("vol_offsets", 1, pre)) vol_refusal_case({{{"a1.big", 0x7FFFFFFFull}, {"a2.big", 0x7FFFFFFFull}, {"a3.big", 0x7FFFFFFFull}}}, pre, st, "offset_crossing");
 		if (sw("vol_offsets", 2, pre)) vol_refusal_case({{{"a1.big", 0x7FFFFFFFull}, {"a2.big", 0x7FFFFFF0ull}, {"a3.big", 16}, {"a4.big", 0}}}, pre, st, "offset_crossing");
 	}
+	// VOL: the third block offset lands exactly on / just past 2^32 (unaligned end of the second block = 2^32 + delta)
+	for (int delta = -3; delta <= 9; ++delta) {
+		if (!sw("vol_offset_edge", uint64_t(delta + 16))) continue;
+		VolPlan p; p.files = {{"a1.big", 0x7FFFFFFCull}, {"a2.big", 0}, {"a3.end", 5}};
+		uint64_t names = 0; for (auto& f : p.files) names += f.first.size() + 1;
+		uint64_t off2 = 32 + ((names + 7) & ~uint64_t(3)) + ((14 * 3 + 3) & ~uint64_t(3)) + 8 + 0x7FFFFFFCull;
+		p.files[1].second = uint64_t(int64_t(0x100000000ull) + delta) - off2 - 8;
+		vol_refusal_case(p, delta & 1, st, "offset_exactly_at_2^32");
+	}
 	// CLM: data offsets crossing 2^32
 	if (sw("clm_cross", 0)) clm_refusal_case({0x60000000u, 0x60000000u, 0x60000000u}, st, "offset_crossing");
 	if (sw("clm_cross", 1)) clm_refusal_case({0xFFFFFF00u, 0x100u}, st, "offset_crossing");
